@@ -84,6 +84,15 @@ def User.update (u : User) : Except Err User :=
   let (q, c) := u.collector.moveData
   drain q.len q { u with collector := c }
 
+/-- `update()` in which the buffer's `add` raises at the `k`-th sample of this hand-over (counting from 0):
+the samples before it have been added and time-stamped one by one, the failing sample and the rest of the
+batch are gone with the local queue (the collector was already swapped). `k` beyond the batch: a normal
+update. The flag tells whether the exception was raised. -/
+def User.updateF (u : User) (k : Nat) : Except Err (User × Bool) :=
+  let (q, c) := u.collector.moveData
+  if k < q.len then (drain k q { u with collector := c }).map (fun u' => (u', true))
+  else (drain q.len q { u with collector := c }).map (fun u' => (u', false))
+
 /-- `get_data()`: update, then the buffer's content (the recording buffer keeps every add). -/
 def User.getData (u : User) : Except Err (User × List Nat) := do
   let u' ← u.update
